@@ -63,6 +63,7 @@ enum Op {
     D(u64, u64),
     F,
     S,
+    Y, // flush_meta then fsync_range (one sync point)
     K,
     N,
     C,
@@ -196,6 +197,13 @@ async fn run_op(dev: &Dev, op: &Op) -> OpOut {
             Ok(()) => write!(line, "ok").unwrap(),
             Err(e) => write!(line, "err {}", sanitize(&format!("{}", e))).unwrap(),
         },
+        Op::Y => match dev.flush_meta().await {
+            Ok(()) => match dev.fsync_range(0, usize::MAX).await {
+                Ok(()) => write!(line, "ok").unwrap(),
+                Err(e) => write!(line, "err {}", sanitize(&format!("{}", e))).unwrap(),
+            },
+            Err(e) => write!(line, "err {}", sanitize(&format!("{}", e))).unwrap(),
+        },
         Op::S => match dev.fsync_range(0, usize::MAX).await {
             Ok(()) => write!(line, "ok").unwrap(),
             Err(e) => write!(line, "err {}", sanitize(&format!("{}", e))).unwrap(),
@@ -316,7 +324,7 @@ fn dump_log(f: &SimFile, path: &str, with_payload: bool) {
     for r in s.log.iter() {
         write!(
             out,
-            "{} {} {} {} {} {} {} {}",
+            "{} {} {} {} {} {} {} {} {}",
             r.kind.ch(),
             r.off,
             r.len,
@@ -324,7 +332,8 @@ fn dump_log(f: &SimFile, path: &str, with_payload: bool) {
             r.op,
             r.task,
             r.bufmod,
-            r.ret
+            r.ret,
+            if r.aseq == usize::MAX { -1i64 } else { r.aseq as i64 }
         )
         .unwrap();
         if with_payload {
@@ -347,6 +356,7 @@ fn parse_op(t: &[&str]) -> Option<Op> {
         "D" => Op::D(t[1].parse().ok()?, t[2].parse().ok()?),
         "F" => Op::F,
         "S" => Op::S,
+        "Y" => Op::Y,
         "K" => Op::K,
         "N" => Op::N,
         "C" => Op::C,
@@ -588,7 +598,7 @@ fn main() {
                 }
             }
             "fault" => {
-                // fault <kind> <lo> <hi> <nth|all>
+                // fault <kind> <lo> <hi> <nth|all>   (kind ZW: the punch and the write that falls back for it both fail)
                 let c = cur.as_mut().unwrap();
                 let kind = exec::kind_of(t[1].chars().next().unwrap()).unwrap();
                 let fi: usize = if t.len() > 5 { t[5].parse().unwrap() } else { 0 };
@@ -599,6 +609,7 @@ fn main() {
                     nth: if t[4] == "all" { usize::MAX } else { t[4].parse().unwrap() },
                     seen: 0,
                     active: true,
+                    chain: t[1] == "ZW",
                 };
                 if fi < c.files.len() {
                     c.files[fi].0.borrow_mut().faults.push(rule);
@@ -623,6 +634,7 @@ fn main() {
                     s.faults_on = t[1] == "on";
                     if t[1] == "clear" {
                         s.faults.clear();
+                        s.chain_pending = None;
                         s.fail_by_index = None;
                         s.faults_on = true;
                     }
